@@ -76,7 +76,7 @@ class Template:
         return "".join(p[1] if p[0] == "lit" else "{%d}" % p[1] for p in self.pieces)
 
 
-def templates_of(body, fb, org=None):
+def templates_of(body, fb, org=None, closures=False):
     """all format_args! sites of a body, in source order"""
     org = org or Origins(body, fb)
     out = []
@@ -102,5 +102,8 @@ def templates_of(body, fb, org=None):
             s = org.of_operand(t["args"][0], bi, "t")
             if s[0] == "const" and isinstance(s[2], str):
                 out.append(Template(body, bi, t, [("lit", s[2])], [], []))
+    if closures and fb is not None and hasattr(fb, "closures_of"):
+        for c in fb.closures_of(body):
+            out.extend(templates_of(c, fb, None, closures=True))
     out.sort(key=lambda x: tuple(int(v) for v in x.where.rsplit(":", 2)[1:]))
     return out
